@@ -945,6 +945,8 @@ type joinedAction struct {
 }
 
 type kickAction struct {
+	// the group the client is kicked out of, empty if any
+	group    string
 	id       string
 	username *string
 	message  string
@@ -1315,6 +1317,12 @@ func handleAction(c *webClient, a any) error {
 			)
 		}
 	case kickAction:
+		// we may have left the group, or joined another one, since
+		// the action was queued
+		if a.group != "" &&
+			(c.group == nil || c.group.Name() != a.group) {
+			return nil
+		}
 		return group.KickError{
 			a.id, a.username, a.message,
 		}
@@ -1389,7 +1397,7 @@ func closeDownConn(c *webClient, id string, message string) error {
 }
 
 func (c *webClient) Kick(id string, user *string, message string) error {
-	c.action(kickAction{id, user, message})
+	c.action(kickAction{"", id, user, message})
 	return nil
 }
 
@@ -1404,6 +1412,10 @@ func kickClient(g *group.Group, id string, user *string, dest string, message st
 		return group.UserError("no such user")
 	}
 
+	if c, ok := client.(*webClient); ok {
+		c.action(kickAction{g.Name(), id, user, message})
+		return nil
+	}
 	return client.Kick(id, user, message)
 }
 
